@@ -28,6 +28,10 @@ LAWS = [
     ("same-route-attributes", "[{M}entry [attribute]] != [{M}entry [attribute]]"),
     ("same-route-children", "{M}entry (|D| [D child] != [D child])"),
     ("root-of-child", "{M}entry (|D| D child root != D root)"),
+    # every navigation numbers what it yields from zero
+    ("parent-root-unit-numbered-from-zero", "{M}entry (parent, root, unit) ?(pos != 0)"),
+    ("children-numbered-from-zero", "{M}entry ?([child pos] (|P| P != [P elem pos]))"),
+    ("entries-of-a-unit-numbered-from-zero", "{M}unit ?([entry pos] (|P| P != [P elem pos]))"),
     # the unit of a DIE is ONE unit: exactly one listed unit equals it, and every unit equal to it lists the DIE
     ("unit-of-die-is-one-unit", "(|W| W raw unit (|U| [W raw unit (== U)] length != 1))"),
     ("unit-of-die-lists-it", "(|W| W raw entry ?(pos < 200) (|D| W raw unit (== D unit) !(entry ?(offset == D offset) (== D))))"),
